@@ -257,7 +257,13 @@ func (n node) processCache(ctx context.Context, key, data string, val any) error
 }
 
 func (n node) aroundDuration(expire time.Duration) time.Duration {
-	return n.unstableExpire.AroundDuration(expire)
+	d := n.unstableExpire.AroundDuration(expire)
+	if d <= 0 {
+		// 极小的时长（不足 20 纳秒）下浮后会被截断为 0，而 0 秒意味着永不过期
+		d = expire
+	}
+
+	return d
 }
 
 func (n node) setCacheWithNotFound(ctx context.Context, key string) error {
